@@ -185,6 +185,8 @@ def blur_keeps_length(ck):
             else:
                 return t
 
+    seen_counted_loop = []
+    import ast
     for unroll in ((0, 1), (2,)):
         for pa in explore(ck, fn, unroll=unroll):
             if pa.outcome != "return" or pa.value is None:
@@ -196,6 +198,18 @@ def blur_keeps_length(ck):
             counted = t[0] == "comp" and len(t[3]) == 1 and not t[3][0][1] and t[3][0][0] == T.mk_call("range", [n_len])
             conv = [x for x in T.subterms(pa.value) if x[0] == "call" and x[1] in ("numpy.convolve", "numpy.correlate",
                                                                                   "scipy.signal.convolve", "scipy.signal.fftconvolve")]
+            if not counted and t[0] == "comp" and len(t[3]) == 1 and not t[3][0][1] and t[3][0][0][0] == "slice" and \
+                    t[3][0][0][2] in (C(None), C(0)) and t[3][0][0][3] == n_len and t[3][0][0][4] in (C(None), C(1)):
+                counted = True      # one output sample per element of <copies>[:len(vector)] (islice(..., len(vector)))
+            rng_len = T.mk_call("range", [n_len])
+            if not counted and t[0] == "list" and t[1] and all(
+                    any(y[0] == "elem" and y[1] == rng_len and y[2] == k for y in T.subterms(x)) for k, x in enumerate(t[1])):
+                counted = True      # an unrolled loop over range(len(vector)) that appends once per iteration
+                seen_counted_loop.append(True)
+            if not counted and t == ("list", ()) and (seen_counted_loop or any(
+                    isinstance(x, ast.For) and ast.unparse(x.iter).replace(" ", "") == f"range(len({fn.params[0].name}))"
+                    for x in ast.walk(fn.node))):
+                counted = True      # its zero-iteration path: nothing to emit for an empty vector
             if not cut and t[0] == "slice" and t[4] in (C(None), C(1)) and T.p_sub(t[3], t[2]) == n_len and conv and \
                     conv[0][1] == "numpy.convolve" and "mode" not in dict(conv[0][3]) and len(conv[0][2]) == 2:
                 cut = True          # full convolution (len + kernel - 1 samples) cut to [a : a + len(vector)]
